@@ -494,9 +494,9 @@ def execute(tier, seed, limit=0):
     # threads: split the root schedule's steps into ranges
     plans = [(cfg, 2, 1, False) for cfg in CONFIGS]
     if tier == "thorough":
-        plans += [(cfg, 2, 2, True) for cfg in CONFIGS] + [(cfg, 3, 1, False) for cfg in CONFIGS]
+        plans += [(cfg, 2, 2, True) for cfg in ("shared", "same-shape")] + [(cfg, 3, 1, False) for cfg in CONFIGS]
     for cfg, nthreads, bound, s1s2 in plans:
-        for first in range(nthreads):
+        for first in (range(nthreads) if bound == 1 else [0]):
             n = root_length(cfg, nthreads, first)
             nchunks = 16 if bound == 1 else 64
             size = max(1, (n + nchunks - 1) // nchunks)
